@@ -15,6 +15,7 @@ import (
 	"golang.org/x/sync/errgroup"
 	"golang.org/x/sync/singleflight"
 
+	"github.com/go-git/go-git/v6/internal/verifhook"
 	"github.com/go-git/go-git/v6/plumbing"
 	"github.com/go-git/go-git/v6/plumbing/cache"
 	"github.com/go-git/go-git/v6/plumbing/format/idxfile"
@@ -246,6 +247,7 @@ func (s *ObjectStorage) requireIndex() error {
 		if err != nil {
 			return nil, err
 		}
+		verifhook.Yield("objectstorage.requireIndex:publish")
 
 		s.muI.Lock()
 		if s.index == nil {
@@ -295,6 +297,7 @@ func (s *ObjectStorage) Reindex() error {
 		if err != nil {
 			return nil, err
 		}
+		verifhook.Yield("objectstorage.Reindex:swap")
 
 		s.muI.Lock()
 		s.index = local
@@ -468,6 +471,7 @@ func (s *ObjectStorage) packfileWriter(newPack func() (*dotgit.PackWriter, error
 		if err != nil {
 			return
 		}
+		verifhook.Yield("objectstorage.packfileWriter:notify")
 		s.muI.Lock()
 		if _, existed := s.index[h]; !existed {
 			// Copy-on-grow rather than append-in-place so any
@@ -886,8 +890,10 @@ func (s *ObjectStorage) findObjectInPackfile(h plumbing.Hash) (plumbing.Hash, id
 	} else {
 		hint = -1
 	}
+	verifhook.Yield("objectstorage.findObject:after-hint")
 
 	for i, pe := range packs {
+		verifhook.Yield("objectstorage.findObject:scan")
 		if i == hint {
 			// Skip the MRU pack — we already tried it above.
 			continue
